@@ -49,4 +49,41 @@ theorem t_m4_inverse_transform_vector_none (a : M4 K) (u : V3 K) :
     t_m4_inverse_transform_vector_none (envL (a.toList ++ u.toList)) = .noneG [.eq a.det 0 true] := by
   simp [envL, Tr.noneG, M4.toList, V4.toList, V3.toList, M4.det, M4.detSubProc]
   tr_fin
+/-! `inverse_transform` of the matrix transforms is `invert`: one comparison, `det == 0` -/
+theorem t_m3_inverse_transform2_some (a : M3 K) (h : a.det ≠ 0) :
+    t_m3_inverse_transform2_some (envL a.toList) = .okG ((a.inverseTransform.map M3.toList).getD []) [.eq a.det 0 false] := by
+  have h' := h
+  simp only [M3.det] at h'
+  simp [envL, Tr.okG, M3.toList, V3.toList, M3.inverseTransform, M3.invert, h']
+  tr_fin
+theorem t_m3_inverse_transform_some (a : M3 K) (h : a.det ≠ 0) :
+    t_m3_inverse_transform_some (envL a.toList) = .okG ((a.inverseTransform.map M3.toList).getD []) [.eq a.det 0 false] := by
+  have h' := h
+  simp only [M3.det] at h'
+  simp [envL, Tr.okG, M3.toList, V3.toList, M3.inverseTransform, M3.invert, h']
+  tr_fin
+theorem t_m4_inverse_transform_some (a : M4 K) (h : a.det ≠ 0) :
+    t_m4_inverse_transform_some (envL a.toList) = .okG ((a.inverseTransform.map M4.toList).getD []) [.eq a.det 0 false] := by
+  have hi : a.invert = some (M4.new (M4.cf a.transpose (1 / a.det) 0 0) (M4.cf a.transpose (1 / a.det) 0 1)
+      (M4.cf a.transpose (1 / a.det) 0 2) (M4.cf a.transpose (1 / a.det) 0 3)
+      (M4.cf a.transpose (1 / a.det) 1 0) (M4.cf a.transpose (1 / a.det) 1 1)
+      (M4.cf a.transpose (1 / a.det) 1 2) (M4.cf a.transpose (1 / a.det) 1 3)
+      (M4.cf a.transpose (1 / a.det) 2 0) (M4.cf a.transpose (1 / a.det) 2 1)
+      (M4.cf a.transpose (1 / a.det) 2 2) (M4.cf a.transpose (1 / a.det) 2 3)
+      (M4.cf a.transpose (1 / a.det) 3 0) (M4.cf a.transpose (1 / a.det) 3 1)
+      (M4.cf a.transpose (1 / a.det) 3 2) (M4.cf a.transpose (1 / a.det) 3 3)) := by
+    simp only [M4.invert, if_neg h]
+  rw [M4.inverseTransform, hi]
+  simp [envL, Tr.okG, M4.toList, V4.toList, M4.cf, M4.det, M4.detSubProc]
+  tr_fin
+theorem t_m3_inverse_transform_vector_some (a : M3 K) (u : V3 K) (h : a.det ≠ 0) :
+    t_m3_inverse_transform_vector_some (envL (a.toList ++ u.toList)) =
+      .okG (((a.inverseTransformVector u).map V3.toList).getD []) [.eq a.det 0 false] := by
+  have h' := h
+  simp only [M3.det] at h'
+  simp [envL, Tr.okG, M3.toList, V3.toList, M3.inverseTransformVector, M3.inverseTransform, M3.invert, h']
+  tr_fin
+theorem t_m2_transpose (a : M2 K) : t_m2_transpose (envL a.toList) = .okS a.transpose.toList := by tr_auto
+theorem t_m3_transpose (a : M3 K) : t_m3_transpose (envL a.toList) = .okS a.transpose.toList := by tr_auto
+theorem t_m4_transpose (a : M4 K) : t_m4_transpose (envL a.toList) = .okS a.transpose.toList := by tr_auto
 end Cg.Trace.C02
